@@ -224,7 +224,9 @@ int32_t tls13ParseStatusRequest(ssl_t *ssl,
         }
         resp = extBuf->buf.start;
 
-        /* Parse and validate the response. */
+        /* Parse and validate the response. A response without
+           responseBytes parses without touching the structure. */
+        Memset(&ocspResp, 0x0, sizeof(psOcspResponse_t));
         rc = psOcspParseResponse(ssl->hsPool,
                 respLen,
                 &resp,
